@@ -110,6 +110,12 @@ func runC11(r *Run) {
 		m := map[string]int{"rootmap": rootmap, "lr": lr, "lc": lc, "maxc": maxc, "depth": depth, "detach": 1, "nosettype": 1}
 		return m
 	}
+	exND := func(rootmap int) map[string]int {
+		m := ex(rootmap, 2, 2, 3, 2)
+		m["nodedup"] = 1
+		m["childcls"] = 1
+		return m
+	}
 	var specs []Spec
 	if !r.Thorough() {
 		specs = []Spec{
@@ -119,6 +125,8 @@ func runC11(r *Run) {
 			{Name: "detach-2kids", Kind: "nested", T: 256, Keys: 2, Classes: []string{"t", "A", "M"}, Oracles: or, Extra: ex(0, 2, 1, 3, 2)},
 			{Name: "detach-2kids-map", Kind: "nested", T: 256, Keys: 2, Classes: []string{"t", "A", "M"}, Oracles: or, Extra: ex(1, 2, 1, 3, 2)},
 			{Name: "detach-depth3", Kind: "nested", T: 256, Keys: 1, Classes: []string{"h", "A", "M"}, Oracles: or, Extra: ex(0, 1, 2, 3, 3)},
+			{Name: "detach-nodedup-arr", Kind: "nested", T: 256, Keys: 2, Classes: []string{"t", "A"}, Oracles: []string{"sem", "struct", "inline", "reach", "reopen"}, Extra: exND(0), Depth: 5},
+			{Name: "detach-nodedup-map", Kind: "nested", T: 256, Keys: 2, Classes: []string{"t", "M"}, Oracles: []string{"sem", "struct", "inline", "reach", "reopen"}, Extra: exND(1), Depth: 5},
 		}
 	} else {
 		specs = []Spec{
@@ -129,6 +137,8 @@ func runC11(r *Run) {
 			{Name: "detach-2kids-map", Kind: "nested", T: 256, Keys: 2, Classes: []string{"t", "A", "M"}, Oracles: or, Extra: ex(1, 2, 2, 3, 2)},
 			{Name: "detach-depth3", Kind: "nested", T: 256, Keys: 1, Classes: []string{"h", "A", "M"}, Oracles: or, Extra: ex(0, 1, 2, 3, 3)},
 			{Name: "detach-arr-T512", Kind: "nested", T: 512, Keys: 2, Classes: []string{"t", "h", "A"}, Oracles: or, Extra: ex(0, 2, 2, 2, 2)},
+			{Name: "detach-nodedup-arr", Kind: "nested", T: 256, Keys: 2, Classes: []string{"t", "A"}, Oracles: []string{"sem", "struct", "inline", "reach", "reopen"}, Extra: exND(0), Depth: 6},
+			{Name: "detach-nodedup-map", Kind: "nested", T: 256, Keys: 2, Classes: []string{"t", "M"}, Oracles: []string{"sem", "struct", "inline", "reach", "reopen"}, Extra: exND(1), Depth: 6},
 		}
 	}
 	r.ExploreSpecs(specs)
